@@ -312,8 +312,8 @@ before `let token = Token::new(token_kind, self.pos_within_token());`:
                 assert forall|i: int| 2 <= i < e.len() implies #[trigger] e[i] != '\n' by { assert(e[i] == r1[i - 1]); }
             }
             if token_kind == TokenKind::MetadataStart { assert(e =~= seq!['>', '>']); }
-            if token_kind == TokenKind::Newline { assert(e =~= seq!['\n'] || e =~= seq!['\r', '\n']); }
-            assert(shape(token_kind, e, f));
+            if token_kind == TokenKind::Newline { assert(e =~= seq!['\n'] || e =~= seq!['\r', '\n']); }   // [C17] LF and CRLF are exactly one Newline token
+            assert(shape(token_kind, e, f));   // [C17] [C04]
         }
 @*/
 
@@ -346,15 +346,15 @@ before `while let Some(c) = self.bump()`:
         proof { assert(self.rem() == o.drop_first()); assert(o.skip(1) =~= o.drop_first()); }
 loop 0:
             invariant_except_break
-                forall|i: int| 1 <= i && i + 1 < o.len() - self.rem().len() ==> !(#[trigger] o[i] == '-' && o[i + 1] == ']'),
-                o.len() - self.rem().len() >= 2 && o[o.len() - self.rem().len() - 1] == '-' ==> (self.rem().len() == 0 || self.rem()[0] != ']'),
+                forall|i: int| 1 <= i && i + 1 < o.len() - self.rem().len() ==> !(#[trigger] o[i] == '-' && o[i + 1] == ']'),     // [C17] no `-]` inside the comment so far
+                o.len() - self.rem().len() >= 2 && o[o.len() - self.rem().len() - 1] == '-' ==> (self.rem().len() == 0 || self.rem()[0] != ']'),    // [C17]
             invariant self.inv(), self.mark() == old(self).mark(), suffix(old(self).rem(), self.rem()), o == old(self).rem(),
                 1 <= o.len() - self.rem().len(), self.rem() == o.skip(o.len() - self.rem().len()), o[0] == '-',
             ensures
                 self.rem().len() <= o.len(),
-                bc_ok(eaten(o, self.rem()), 1, self.rem().len() == 0),
+                bc_ok(eaten(o, self.rem()), 1, self.rem().len() == 0),     // [C17] the comment ends at the first `-]` or at the end of input
             decreases self.fuel()
-before `match c {`:
+?before `match c {`:
             broadcast use lemma_suffix_trans_b;
             let ghost n = o.len() - self.rem().len();
             proof { assert(o.skip(n - 1).drop_first() =~= o.skip(n)); assert(o[n - 1] == c); }
